@@ -375,6 +375,10 @@ class ProgGen:
             p.functions[:] = t.shuffle(p.functions, "function-order")
         _dedupe_signatures(p)
         _assign_entities(p)
+        if self.f.get("untidy_layout", True):
+            nunits = len(p.enums) + len(p.classes) + len(p.templates) + len(p.functions)
+            p.layout = {"reopen": t.bool(0.5, "reopen-namespaces"),
+                        "unit_order": t.shuffle(list(range(nunits)), "unit-order") if t.bool(0.5, "shuffle-units") else None}
         return p
 
     # -- forced features: guarantee that a program exercises a construct (swarm by program index) ----
@@ -729,17 +733,29 @@ def emit_interface(p):
     for ns, f in p.functions:
         units.append((ns, "func", f))
     # classes must precede their uses only for C++; wrap does not care.  Keep model order per namespace.
+    layout = getattr(p, "layout", None) or {}
+    if layout.get("unit_order"):
+        # the order in which a hand-written file happens to list things: a tape-chosen permutation
+        units = [units[k] for k in layout["unit_order"] if k < len(units)] + units[len(layout["unit_order"]):]
     order = []
-    for ns, _, _ in units:
-        if tuple(ns) not in order:
-            order.append(tuple(ns))
-    for ns in order:
+    if layout.get("reopen"):
+        # namespaces are re-opened wherever the next declaration lives elsewhere (as in files that grew over time)
+        for u in units:
+            if not order or order[-1][0] != tuple(u[0]):
+                order.append((tuple(u[0]), [u]))
+            else:
+                order[-1][1].append(u)
+    else:
+        seen_ns = []
+        for ns, _, _ in units:
+            if tuple(ns) not in seen_ns:
+                seen_ns.append(tuple(ns))
+        order = [(ns, [u for u in units if tuple(u[0]) == ns]) for ns in seen_ns]
+    for ns, block in order:
         ind = ""
         for n in ns:
             lines.append("namespace %s {" % n)
-        for uns, kind, u in units:
-            if tuple(uns) != ns:
-                continue
+        for uns, kind, u in block:
             if kind == "enum":
                 lines.append("%senum %s { %s };" % (ind, u.name, ", ".join(u.values)))
             elif kind == "func":
